@@ -152,6 +152,14 @@ class P:
              [("H", "cat <<E\nbody\nE\n"), (" H", " cat <<E\nbody\nE\n"), ("x=1 H", "x=1 cat <<E\nbody\nE\n"), ("a | H", "a | cat <<E\nbody\nE\n"),
               ("  HT", "  cat <<-E\n\tfoo\n\tE\n"), ("   HX", "   cat <<E\n$x `y`\nz\\\nE\nE\n"), ("{ H }", "{ cat <<E\nbody\nE\n }"), ("\tH2", "\tcat <<A <<'B'\n1\nA\n$2\nB\n"),
               ("if H then :; fi", "if cat <<E\nbody\nE\nthen :; fi")]),
+            # text after a here-document inside an alias value, at top level and inside compound commands; the operator in the
+            # source and the body in the value; chains; the source going on after the alias
+            ({"HA": "cat <<E\nbody\nE\necho after", "HB": "foo\nbody $x\nE\nbar ; baz", "C1": "C2 C3 ", "C2": "cat <<-'E' ", "C3": ">f\n\tbody\n\tE\nif x; then y; fi",
+              "HC": "cat <<E\nb\nE\na |"},
+             [("HA", "cat <<E\nbody\nE\necho after"), ("cat <<E; HB", "cat <<E; foo\nbody $x\nE\nbar ; baz"), ("C1", "cat <<-'E' >f\n\tbody\n\tE\nif x; then y; fi"),
+              ("HA arg\necho last", "cat <<E\nbody\nE\necho after arg\necho last"), ("{ HA\n}", "{ cat <<E\nbody\nE\necho after\n}"),
+              ("x | HA y", "x | cat <<E\nbody\nE\necho after y"), ("HC z", "cat <<E\nb\nE\na | z"), ("HA; HA", "cat <<E\nbody\nE\necho after; cat <<E\nbody\nE\necho after"),
+              ("( HA )", "( cat <<E\nbody\nE\necho after )"), ("HA && w", "cat <<E\nbody\nE\necho after && w")]),
             # after an assignment or redirection prefix the command name is an ordinary word, also when the alias value begins
             # with a reserved word
             ({"a": "if x", "b": "{ y", "c": "! z", "d": "then", "e": "done q", "k": "a w"},
